@@ -93,6 +93,15 @@ Definition arr_remove_first (a : arr) : outcome (arr * Z) := arr_remove_at a 0.
 Definition arr_remove_last (a : arr) : outcome (arr * Z) :=
   if Nat.eqb (a_cnt a) 0 then Err ARES_EFORMERR else arr_remove_at a (a_cnt a - 1).
 
+(* ares_array_finish: the members are moved to the start of the allocation and the block is
+   handed to the caller together with the member count (None = NULL on a failed move) *)
+Definition arr_finish (a : arr) : outcome (list Z) :=
+  do a1 <- (if negb (Nat.eqb (a_off a) 0)
+            then do m <- arr_move a 0 (a_off a); Ok (mkArr (a_cells m) (a_cnt m) 0)
+            else Ok a);
+  if Nat.ltb (alloc_cnt a1) (a_cnt a1) then UB OutOfBounds
+  else Ok (firstn (a_cnt a1) (a_cells a1)).
+
 (* abstraction: the member sequence *)
 Definition arr_abs (a : arr) : list Z := firstn (a_cnt a) (skipn (a_off a) (a_cells a)).
 
@@ -105,4 +114,118 @@ Definition spec_remove (l : list Z) (idx : nat) : option (list Z * Z) :=
   match nth_error l idx with
   | None => None
   | Some v => Some (firstn idx l ++ skipn (S idx) l, v)
+  end.
+
+(* ---- operation sequences: the model run and the reference run ---- *)
+Definition arr_first (a : arr) : option Z := arr_at a 0.
+(* ares_array_last *)
+Definition arr_last (a : arr) : option Z :=
+  if Nat.eqb (arr_len a) 0 then None else arr_at a (arr_len a - 1).
+
+Inductive arr_op :=
+| AInsAt (idx : nat) (v : Z) | AInsFirst (v : Z) | AInsLast (v : Z)
+| ARemAt (idx : nat) | ARemFirst | ARemLast
+| AAt (idx : nat) | AFirst | ALast | ALen
+| ASetSize (n : nat).
+
+Inductive arr_res :=
+| RStatus (s : Z)          (* status of an insert, or of a failed removal *)
+| RRemoved (v : Z)         (* ARES_SUCCESS + the member handed to the destructor *)
+| RVal (o : option Z)      (* member pointer result: NULL = None *)
+| RLen (n : nat)
+| RUB.
+
+Definition arr_res_ins (a : arr) (m : outcome arr) : arr * arr_res :=
+  match m with
+  | Ok a' => (a', RStatus ARES_SUCCESS)
+  | Err s => (a, RStatus s)
+  | UB _ => (a, RUB)
+  end.
+Definition arr_res_rem (a : arr) (m : outcome (arr * Z)) : arr * arr_res :=
+  match m with
+  | Ok (a', v) => (a', RRemoved v)
+  | Err s => (a, RStatus s)
+  | UB _ => (a, RUB)
+  end.
+
+(* one API call; [alloc_ok] is the allocator's answer should the call ask *)
+Definition arr_step (alloc_ok : bool) (a : arr) (o : arr_op) : arr * arr_res :=
+  match o with
+  | AInsAt idx v => arr_res_ins a (arr_insertdata_at alloc_ok a idx v)
+  | AInsFirst v => arr_res_ins a (arr_insertdata_first alloc_ok a v)
+  | AInsLast v => arr_res_ins a (arr_insertdata_last alloc_ok a v)
+  | ARemAt idx => arr_res_rem a (arr_remove_at a idx)
+  | ARemFirst => arr_res_rem a (arr_remove_first a)
+  | ARemLast => arr_res_rem a (arr_remove_last a)
+  | AAt idx => (a, RVal (arr_at a idx))
+  | AFirst => (a, RVal (arr_first a))
+  | ALast => (a, RVal (arr_last a))
+  | ALen => (a, RLen (arr_len a))
+  | ASetSize n => arr_res_ins a (arr_set_size alloc_ok a n)
+  end.
+
+Fixpoint arr_run (a : arr) (ops : list (bool * arr_op)) : arr * list arr_res :=
+  match ops with
+  | [] => (a, [])
+  | (ok, o) :: ops' =>
+    let '(a1, r) := arr_step ok a o in
+    let '(a2, rs) := arr_run a1 ops' in (a2, r :: rs)
+  end.
+
+(* the reference: a plain list *)
+Definition aspec_step (l : list Z) (o : arr_op) : list Z * arr_res :=
+  match o with
+  | AInsAt idx v =>
+    match spec_insert l idx v with
+    | Some l' => (l', RStatus ARES_SUCCESS)
+    | None => (l, RStatus ARES_EFORMERR)
+    end
+  | AInsFirst v => (v :: l, RStatus ARES_SUCCESS)
+  | AInsLast v => (l ++ [v], RStatus ARES_SUCCESS)
+  | ARemAt idx =>
+    match spec_remove l idx with
+    | Some (l', v) => (l', RRemoved v)
+    | None => (l, RStatus ARES_EFORMERR)
+    end
+  | ARemFirst =>
+    match l with
+    | [] => (l, RStatus ARES_EFORMERR)
+    | x :: t => (t, RRemoved x)
+    end
+  | ARemLast =>
+    match l with
+    | [] => (l, RStatus ARES_EFORMERR)
+    | _ => (removelast l, RRemoved (last l 0%Z))
+    end
+  | AAt idx => (l, RVal (nth_error l idx))
+  | AFirst => (l, RVal (hd_error l))
+  | ALast => (l, RVal (match l with [] => None | _ => Some (last l 0%Z) end))
+  | ALen => (l, RLen (length l))
+  | ASetSize n =>
+    (l, RStatus (if Nat.eqb n 0 || Nat.ltb n (length l) then ARES_EFORMERR else ARES_SUCCESS))
+  end.
+
+Fixpoint aspec_run (l : list Z) (ops : list arr_op) : list Z * list arr_res :=
+  match ops with
+  | [] => (l, [])
+  | o :: ops' =>
+    let '(l1, r) := aspec_step l o in
+    let '(l2, rs) := aspec_run l1 ops' in (l2, r :: rs)
+  end.
+
+(* A run in which the allocator may refuse: each step either is the reference step, or -
+   only if the allocator said no ([ok = false]) and the reference would have accepted the
+   insert - reports ARES_ENOMEM and leaves the sequence unchanged. *)
+(* calls that may ask the allocator *)
+Definition arr_op_is_insert (o : arr_op) : bool :=
+  match o with AInsAt _ _ | AInsFirst _ | AInsLast _ | ASetSize _ => true | _ => false end.
+
+Fixpoint aspec_trace (l : list Z) (ops : list (bool * arr_op)) (rs : list arr_res) (lfinal : list Z) : Prop :=
+  match ops, rs with
+  | [], [] => lfinal = l
+  | (ok, o) :: ops', r :: rs' =>
+    (r = snd (aspec_step l o) /\ aspec_trace (fst (aspec_step l o)) ops' rs' lfinal)
+    \/ (ok = false /\ arr_op_is_insert o = true /\ snd (aspec_step l o) = RStatus ARES_SUCCESS
+        /\ r = RStatus ARES_ENOMEM /\ aspec_trace l ops' rs' lfinal)
+  | _, _ => False
   end.
